@@ -338,6 +338,12 @@ impl Engine {
 
 	/// Handle a confirmed failure (already shrunk). Returns true if it is a violation.
 	fn report<C: Serialize>(&self, leg: &str, case: &C, f: Failure) -> bool {
+		// "env:" signatures are failures of the sandbox itself (cannot create a temp dir, cannot write a
+		// scratch file, cannot execute our own helper binary): nothing was decided, exit 2.
+		if f.signature.starts_with("env:") {
+			self.inconclusive(format!("leg {leg}: {} — {}", f.signature, f.message.lines().next().unwrap_or("")));
+			return false;
+		}
 		if let Some(k) = self.open_known(&f.signature) {
 			let mut hits = self.known_hits.lock().unwrap();
 			let n = hits.entry(f.signature.clone()).or_default();
